@@ -126,4 +126,24 @@ theorem chroot_mounted_no_mount (fuel : Nat) (p : Proc) (layers : List (List Byt
   have hc : (∀ x, x ∈ layers.getLast?.getD [] → x ∈ k) = True := eq_true hk
   simp [turn, hc]
 
+/-- chroot into a layer that the freshly read table does NOT show fully mounted continues
+    exactly as `mount` of the same chain does after its first reading of the table: same
+    kernel interactions, same final process state (Layerdefs.Chroot → Layerdefs.Mount) -/
+theorem chroot_unmounted_as_mount (fuel : Nat) (p q : Proc) (layers : List (List Bytes)) (k : List Bytes)
+    (hp : p.pending = chrootChainActs layers) (hq : q.pending = mountChainActs layers)
+    (hf : q.failed = p.failed)
+    (hk : ¬ ∀ x, x ∈ layers.getLast?.getD [] → x ∈ k) :
+    turn (fuel + 2) (turn (fuel + 1) p k).1 k = turn (fuel + 1) (turn (fuel + 1) q k).1 k := by
+  have h1 : turn (fuel + 1) p k =
+      ({ p with cache := k, pending := [.doneIfCached (layers.getLast?.getD [])] ++
+          layers.flatMap fun ts => ts.map .ensure ++ [.probe] }, k) := by
+    simp [turn, hp, chrootChainActs]
+  have h2 : turn (fuel + 1) q k =
+      ({ q with cache := k, pending := layers.flatMap fun ts => ts.map .ensure ++ [.probe] }, k) := by
+    simp [turn, hq, mountChainActs]
+  rw [h1, h2]
+  have hc : (∀ x, x ∈ layers.getLast?.getD [] → x ∈ k) = False := eq_false hk
+  conv => lhs; unfold turn
+  simp [hc, hf]
+
 end Lc.Props.C20
